@@ -175,7 +175,7 @@ func loadEngine(repoDir, verifDir string, pc *PropCfg) (*Engine, error) {
 	prog.Build()
 	e := &Engine{
 		prog: prog, pkgs: map[string]*ssa.Package{}, fset: prog.Fset,
-		maxSteps: 4_000_000, unwind: 12, maxConcretize: 64, maxRegionCmp: 512,
+		maxSteps: 4_000_000, unwind: 12, maxConcretize: 64, maxRegionCmp: 2048,
 		branchMs: 3000, branchSlowMs: 20000, assertMs: 10000,
 		repoDir: repoDir, verifDir: verifDir,
 	}
